@@ -454,7 +454,9 @@ pub fn generate(seed: u64, n: usize, thorough: bool, corpus: Option<&str>) -> Ve
     //     USED by the program, and the graph VALUE of parse(format(s)) is compared with that of parse(s)
     for body in ["A -> [B: 0], B", "A -> [B: 0, C: -2, D: 1.5, E], B -> [A], C, D, E", "A -> [B], B -> [A: 0]", "A -> [B: -0.5, C: 0.0], B, C",
                  "A -> [B: 1, C: 1.0], B -> [C: 100000000000000000000], C", "A -> [B: 0.000001], B -> [A: -0], C", "A, B, C", "A -> [A: 0]",
-                 "A -> [B: 2, C], B -> [C: 0, A: 3], C -> [A: -1]", "A -> [], B", "A -> [B: 9007199254740993], B", ""] {
+                 "A -> [B: 2, C], B -> [C: 0, A: 3], C -> [A: -1]", "A -> [], B", "A -> [B: 9007199254740993], B", "",
+                 // a graph of isolated nodes can only be written with a leading comma (`Graph { A, B }` is read as a block function)
+                 ", A, B", ", A", ", A -> [B,], B", "A -> [B,], B", ", A, B -> [A]"] {
         for g in [format!("Graph {{ {} }}", body), format!("Graph {{\n        {}\n    }}", body.replace(", ", ",\n        "))] {
             push(format!("min sum((u, v, c) in edges(G)) {{ c * x_u_v }}\ns.t.\n    x_u_v >= 1 for (u, v) in edges(G)\nwhere\n    let G = {}\ndefine\n    x_u_v as Real for (u, v) in edges(G)\n", g), "graph-literals", &mut cases);
             push(format!("max y\ns.t.\n    y <= sum((u, v, c) in edges(G)) {{ c }} + len(nodes(G))\n    y <= sum(e in neigh_edges_of(\"A\", G)) {{ 1 }}\nwhere\n    let G = {}\ndefine\n    y as Real\n", g), "graph-literals", &mut cases);
